@@ -25,6 +25,20 @@ CLAIMED = {
         "watchdog in ./check, never as a violation.",
         "DESIGN.md section 4, C01",
     ),
+    "C15": (
+        "generated corpus of derive programs + proptest random search per program with four oracles: agreement with the generated command, "
+        "shape-rule interpreter over ArgMatches (reference model), print->parse round trip, update model over histories; bounded-exhaustive "
+        "value-enum name tables; shrinking",
+        "A generated, compiled corpus of derive families (114 committed: systematic shape x value-type x spelling matrix + random "
+        "composition with flatten / Option<flatten> / subcommand enums incl. nested, flattened and external variants, rename_all, ids, "
+        "aliases, defaults, num_args, delimiters; thorough adds 150 families regenerated from VERIF_SEED) is driven by generated command "
+        "lines, generated values and generated update histories. The oracle is an interpreter of the type-shape rules over a plain-data "
+        "descriptor emitted by the corpus generator (not read back from the macro).",
+        "Programs are quantified by a compiled corpus, not at run time; env, global/from_global, custom parsers and requirement-excusing "
+        "attributes are not in the corpus; only successful update steps are judged; values no command line can express are discarded "
+        "(counted per reason in the evidence).",
+        "DESIGN.md section 4, C15",
+    ),
     "C16": (
         "proptest random search over command trees x six generators: determinism and textual level-coverage oracles from the built command's item sets; for bash a differential test in a real bash process (script sourced, completion function called for generated subcommand paths and partial words)",
         "For generated trees (hyphen/underscore names that collide after mangling, aliases, hidden items, possible values, value hints, "
